@@ -9,7 +9,9 @@ from ansi_string import AnsiString, AnsiStr
 RULE = ('values with prior formatting x pattern: plain strings containing regex metacharacters (regex=False) or valid regexes from '
         'a small grammar (literals, classes, * + ? lazy, alternation, anchors, empty-matching patterns, adjacent matches) x match_case '
         'x count in {-1,0,1,2,7} x format in {none, one, several, None, None among others}. Non-trivial = >=2 matches, or the escaped '
-        'and unescaped readings of the pattern differ, or count < number of matches; distinct by case.')
+        'and unescaped readings of the pattern differ, or count < number of matches; distinct by case. Texts contain line breaks '
+        '(anchored and inline-flag patterns); sub-check matching_after_below_insert uses values with settings inserted below others '
+        'and counts that run out before the matches do; the result must be == to the folded copy.')
 ASSUMPTIONS = ['the reference folds the library\'s own apply_formatting / remove_formatting over re.finditer matches (their correctness is C06/C07)',
                'only syntactically valid regular expressions are generated']
 
